@@ -372,6 +372,27 @@ theorem C08_slo_meets_spec (truthy : α → Bool) (eps : List (Endpoint α)) (pr
       simp only
       exact List.any_eq_true.mpr ⟨e, he, by simp [hb, hd]⟩
 
+/-- Logout across several identity providers: every request goes to an endpoint published by the
+    provider it is meant for (no endpoint table is carried over from one provider to the next). -/
+theorem C08_slo_all_meets_spec (truthy : α → Bool) (preferred : List α) (expected : Option α) :
+    ∀ (targets : List (List (Endpoint α))) (outs : List (Option (Pick α))),
+      sloAll truthy preferred expected targets = some outs → specSloAll targets outs = true
+  | [], outs, h => by
+    unfold sloAll at h; cases h; rfl
+  | eps :: rest, outs, h => by
+    unfold sloAll at h
+    split at h
+    · cases h
+    next c hc =>
+      split at h
+      · cases h
+      next cs hcs =>
+        cases h
+        unfold specSloAll
+        simp only [Bool.and_eq_true]
+        refine ⟨?_, C08_slo_all_meets_spec truthy preferred expected rest cs hcs⟩
+        exact C08_slo_meets_spec truthy eps preferred expected
+
 /-! Non-vacuity: concrete instances meeting the hypotheses. -/
 
 private def ep (b l : String) (i : String) : Endpoint String := { binding := b, location := l, index := some i }
